@@ -144,8 +144,8 @@ def ObsMatch (E : Enc κ δ ε) (col : Nat) : MObs → SObs ε → Prop
   | .res .badHandle, .bad => True
   | .val (some v), .val v' => v = v'
   | .members (some l), .members m =>
-    -- exactly the committed members of exactly that key, each in its encoded form …
-    (∀ y, y ∈ l ↔ ∃ e, y = some (E.encE col e) ∧ m e = true)
+    -- exactly the committed members of exactly that key, each in its encoded form, each once
+    (∀ y, y ∈ l ↔ ∃ e, y = some (E.encE col e) ∧ m e = true) ∧ l.Nodup
   | _, _ => False
 
 /-- column the observation of a command is about (only used for `scan`) -/
